@@ -161,6 +161,9 @@ func namedTypeName(t types.Type) string {
 		t = p.Elem()
 	}
 	if n, ok := t.(*types.Named); ok {
+		if a, ok := typeAlias[n.Obj().Name()]; ok && n.Obj().Pkg() != nil && n.Obj().Pkg().Path() == cometPath {
+			return a
+		}
 		return n.Obj().Name()
 	}
 	return ""
@@ -172,7 +175,7 @@ func isFloat32(t types.Type) bool {
 }
 
 func isRoaringBitmapPtr(t types.Type) bool {
-	return types.TypeString(t, nil) == "*github.com/RoaringBitmap/roaring.Bitmap"
+	return tstr(t, nil) == "*github.com/RoaringBitmap/roaring.Bitmap"
 }
 
 const roaringBitmap = "(*github.com/RoaringBitmap/roaring.Bitmap)."
